@@ -16,6 +16,7 @@ import (
 	"strings"
 	"sync"
 	"syscall"
+	"time"
 )
 
 var (
@@ -128,4 +129,15 @@ func Lookup(name string) (any, bool) {
 	defer mu.Unlock()
 	v, ok := published[name]
 	return v, ok
+}
+
+// DurationOr returns the duration given in milliseconds by the environment
+// variable env, or def when it is unset or invalid.
+func DurationOr(env string, def time.Duration) time.Duration {
+	if v := os.Getenv(env); v != "" {
+		if ms, err := strconv.Atoi(v); err == nil && ms > 0 {
+			return time.Duration(ms) * time.Millisecond
+		}
+	}
+	return def
 }
